@@ -330,7 +330,13 @@ class StoreModel:
 
         def scan(stmts: List[ast.stmt], guard: Optional[Tuple[ast.AST, bool]]) -> None:
             nonlocal qual, why
-            for x in stmts:
+            for k_, x in enumerate(stmts):
+                if isinstance(x, ast.Break) and k_ > 0 and isinstance(stmts[k_ - 1], ast.Assign) and len(stmts[k_ - 1].targets) == 1 \
+                        and isinstance(stmts[k_ - 1].targets[0], ast.Name) and stmts[k_ - 1].targets[0].id in accs \
+                        and isinstance(stmts[k_ - 1].value, (ast.List, ast.Tuple)) and not stmts[k_ - 1].value.elts and len(accs) == 1:
+                    # `segments = []; break`: the whole collection is given up (a refusal marker that the code after the loop tests), nothing is dropped from a
+                    # collection that is used: the location is built from all the segments or not at all (whether it IS refused is the confinement rule's business)
+                    continue
                 if isinstance(x, ast.Continue):
                     if guard is None or not _skips_only_empty(guard[0], guard[1], st.target):
                         qual, why = "lossy", f"`continue` at line {x.lineno} skips non-empty segments"
